@@ -66,6 +66,14 @@ pub fn cases(prop: &str, tier: Tier, seed: u64) -> Vec<CaseDesc> {
             for (p, nq, nt) in [("full", 3000, 150_000), ("mvp", 800, 30_000), ("stable", 800, 30_000), ("gcgraph", 1500, 60_000), ("names", 600, 20_000), ("customs", 600, 20_000)] {
                 out.extend(with_scenario(g(p, nq, nt), "rt:emit,gc"));
             }
+            // generated well-formed edit scripts through the public builder / edit APIs
+            for (p, nq, nt) in [("full", 2500, 120_000), ("gcgraph", 1500, 60_000), ("customs", 500, 20_000)] {
+                let specs = g(p, nq, nt);
+                for (i, s) in specs.into_iter().enumerate() {
+                    let cfg = [26u32, 26, 26, 8, 10, 90][i % 6];
+                    out.push(CaseDesc { spec: s, scenario: format!("edit;cfg={};seed={}", cfg, seed.wrapping_add(i as u64)) });
+                }
+            }
             // configurations: names/producers off
             out.extend(with_scenario(g("names", 300, 10_000), "rt:emit,gc;cfg=8"));
             out.extend(with_scenario(g("customs", 300, 10_000), "rt:emit,gc;cfg=10"));
